@@ -986,7 +986,26 @@ static int nth_stalled(int k)
     return -1;
 }
 
-static int ev_unstall_enabled(void *a) { return nth_stalled((int)(intptr_t)a) >= 0; }
+/* cfg.stall_until_read: the stall is a closed window, and a window opens when the receiver reads: the stall can
+   only end once the peer has drained what this end wrote (or is gone).  With both ends stalled at once each
+   needs the other to READ - the flow-control deadlock that a socket which lost its read interest falls into. */
+static int stall_may_end(int fd)
+{
+    if (!cfg.stall_until_read)
+        return 1;
+    int p = fdt[fd].peer_fd;
+    if (p < 0 || fdt[p].kind != K_TCP)
+        return 1;
+    int unread = 0;
+    ioctl(p, FIONREAD, &unread);
+    return unread == 0;
+}
+
+static int ev_unstall_enabled(void *a)
+{
+    int fd = nth_stalled((int)(intptr_t)a);
+    return fd >= 0 && stall_may_end(fd);
+}
 static void ev_unstall_fire(void *a)
 {
     int fd = nth_stalled((int)(intptr_t)a);
